@@ -163,7 +163,7 @@ def dtab_api(ctx, prog):
         def is_ins(t):
             return q.callee_is(t, "HashMap::insert") and any(
                 f.endswith("InternalObserver.on_update_handlers") for f in resolve_fields(prog, F, t.arg_place(0)))
-        tb = dtab.table(F, [st()], [dtab.Action("insert", is_ins)])
+        tb = dtab.table(F, [st()], [dtab.Action("insert", is_ins)], path_sensitive=True)
         for (s,), res in sorted(tb.items()):
             got = dtab.summarize(res)
             ctx.site(R, F, "subscribe(%s) -> %s" % (s, got))
